@@ -5,9 +5,10 @@
    Values are immutable here.  The Go cache stores pointers; a client that mutates the object it got from
    Get changes the cached value without the LFU noticing.  That is the op OMutate: it rewrites the value of
    the LFU entry *if the entry is still there* and is lost otherwise (the client then mutates an object the
-   cache has already let go of).  An in-flight save carries the value the entry had at hand-off (in Go the
-   goroutine serializes the pointer a little later; a mutation in that window is excluded by every theorem's
-   hypothesis "no operation on a key while a save of that key is in flight" and never driven by the harness).
+   cache has already let go of) — unless a save of that object is still in flight: the goroutine serializes the
+   pointer later, so the save sees the mutation (OMutate rewrites the in-flight entries of the key in that case;
+   the theorems exclude it by "no operation on a key while a save of that key is in flight", the harness drives it
+   in the gate-held stream).
 
    Badger is a total map with read-your-writes; Bytes/FromBytes are enc/dec; New is dflt. *)
 From Coq Require Import List Arith Bool.
@@ -51,6 +52,9 @@ Definition complete (q : list (K * V)) (d : disk) : disk := fold_left (fun d kv 
 Definition flush_sends (l : lfu (K:=K) (V:=V)) : list (K * V) :=
   map (fun ke => (fst ke, e_val (snd ke))) (filter (fun ke => negb (e_pers (snd ke))) l).
 
+Definition q_poke (k : K) (f : V -> V) (q : list (K * V)) : list (K * V) :=
+  map (fun kv => if keq (fst kv) k then (fst kv, f (snd kv)) else kv) q.
+
 Definition step (c : cache) (o : op) : cache * out :=
   match o with
   | OPut k v => (mkC (l_set keq k v (c_lfu c)) (c_disk c) (c_evq c) (c_wbq c), Unit)
@@ -65,7 +69,15 @@ Definition step (c : cache) (o : op) : cache * out :=
           let v := match c_disk c k with Some d => dec k d | None => dflt k end in
           (mkC (l_set keq k v (c_lfu c)) (c_disk c) (c_evq c) (c_wbq c), Ret v)
       end
-  | OMutate k f => (mkC (l_poke keq k f (c_lfu c)) (c_disk c) (c_evq c) (c_wbq c), Unit)
+  | OMutate k f =>
+      (* the client mutates the object it holds for k.  If the LFU still holds that object the cached value changes
+         (no touch: frequency and `persisted` stay).  If not, the object may still be waiting in a save goroutine,
+         which serializes it only later: the in-flight saves of k see the mutation (in-flight entries of one key are
+         treated as aliases of the client's object); otherwise the mutation is lost. *)
+      match l_find keq k (c_lfu c) with
+      | Some _ => (mkC (l_poke keq k f (c_lfu c)) (c_disk c) (c_evq c) (c_wbq c), Unit)
+      | None => (mkC (c_lfu c) (c_disk c) (q_poke k f (c_evq c)) (q_poke k f (c_wbq c)), Unit)
+      end
   | ODelete k => (mkC (l_delete keq k (c_lfu c)) (d_set k None (c_disk c)) (c_evq c) (c_wbq c), Unit)
   | OEvict num den order =>
       match den with
